@@ -341,7 +341,7 @@ PROPS = {
             dict(h='fibconc', mode='enum', what='ISR, script %d, handlers %s, %s granularity' % (sc, hs, 'every-access' if ea else 'atomic'),
                  params=dict(dict(mode=1, script=sc, every_access=ea, oracle=3, handlers=len(hs), evdepth=ed), **{'h%d' % i: v for i, v in enumerate(hs)}),
                  workers=2, common=dict(split=3, maxruns=1500000))
-            for (sc, hs, ea, ed) in [(0, (3, 1), 1, 1), (0, (4, 3, 2), 0, 2), (1, (3, 0), 1, 1), (1, (5, 3, 1), 0, 1), (2, (2, 3), 1, 2), (2, (1, 2, 0), 0, 1), (3, (3, 3), 1, 1), (3, (4, 4, 1), 0, 2), (4, (1, 2), 1, 1), (4, (2, 1, 1), 0, 1)]
+            for (sc, hs, ea, ed) in [(0, (3, 1), 1, 1), (0, (4, 3, 2), 0, 2), (1, (3, 0), 1, 1), (1, (5, 3, 1), 0, 1), (2, (2, 3), 1, 2), (2, (1, 2, 0), 0, 1), (3, (3, 3), 1, 1), (3, (4, 4, 1), 0, 2)]
         ] + [
             dict(h='fibconc', mode='rc', what='random scripts and interrupt placements (ISR)', params=dict(oracle=3, mode=1),
                  quick=dict(cases=60000, len=500), thorough=dict(cases=3000000, len=500)),
